@@ -105,7 +105,7 @@ func drawConfig(t *rapid.T, o simOpts) sim.Config {
 		intOneIn = 1
 	}
 	if o.Focus != "C05" && rapid.IntRange(0, intOneIn).Draw(t, "interrupt?") == 0 {
-		cfg.Interrupt = &sim.Interrupt{Node: rapid.IntRange(0, n-1).Draw(t, "int-node"), Kind: rapid.SampledFrom([]string{"validate", "validate", "propose"}).Draw(t, "int-kind"),
+		cfg.Interrupt = &sim.Interrupt{Node: rapid.IntRange(0, n-1).Draw(t, "int-node"), Kind: rapid.SampledFrom([]string{"validate", "validate", "propose", "commit"}).Draw(t, "int-kind"),
 			Nth: rapid.IntRange(1, 3).Draw(t, "int-nth"), Event: rapid.SampledFrom([]string{"trigger", "trigger", "trigger", "sync"}).Draw(t, "int-event"), GiveUp: rapid.Bool().Draw(t, "int-giveup"), Delay: rapid.SampledFrom([]int{0, 0, 1, 2, 4}).Draw(t, "int-delay")}
 	}
 	// (not for C05: a failing transport loses messages, which the timely suffix of that property excludes)
